@@ -338,7 +338,9 @@ def event_label(ev):
     if hasattr(ev, "location") and ev.location is not None:
         loc = ev.location
         out.append(("loc", loc.node_type, ".".join(loc.node_hierarchy) if loc.node_hierarchy else ""))
-    for attr in ("step", "step_description", "thread_id", "log_level", "log_message", "check_description", "check_is_successful",
+    if hasattr(ev, "thread_id"):
+        out.append(("thread", getattr(ev, "_verif_thread", "T?%s" % ev.thread_id)))
+    for attr in ("step", "step_description", "log_level", "log_message", "check_description", "check_is_successful",
                  "check_details", "url", "url_description", "attachment_path", "attachment_description", "as_image",
                  "skipped_reason", "disabled_reason"):
         if hasattr(ev, attr):
@@ -381,6 +383,8 @@ class Installed:
             ctl = CTL
             if threading.get_ident() in ctl.by_ident:
                 ctl.yield_(("fire", event.get_name()))
+                # thread idents are reused by the OS once a thread is dead: remember the controller's name of the firing thread
+                event._verif_thread = ctl.me().name
                 ctl.record("fire", event_label(event))
             return orig_fire(self_, event)
         lcc_events.AsyncEventManager.fire = fire
